@@ -183,7 +183,7 @@ func c13Same(src string, mode Mode, refSrc string, refMode Mode) (kind, detail s
 }
 
 func c13Run(c *core.Ctx) {
-	processWarmup()
+	processWarmup(c)
 	c13Sink = func(st string) {
 		if c.Distinct("mode_product_states", st) {
 			c.Inc("distinct_mode_product_states")
